@@ -5,7 +5,7 @@
 From Coq Require Import List String NArith ZArith Bool.
 From SV Require Import Bin.LE Bin.Struct Bin.StructProofs Bin.RLE Bin.RLEProofs Bin.FindInsert Bin.FindInsertProofs
   Fmt.BspFormatsSpec Fmt.BspFormatsProofs Fmt.BspVisRow Fmt.BspVisRowProofs Fmt.BspTexStrings Fmt.BspTexStringsProofs
-  Fmt.BspRecords Fmt.BspRecordsProofs.
+  Fmt.BspRecords Fmt.BspRecordsProofs Fmt.VmfText Fmt.BspEntLump Fmt.BspEntLumpProofs.
 Import ListNotations.
 
 (** * struct: unpack inverts pack for every format and every fitting record *)
@@ -131,6 +131,19 @@ Theorem c11_texdata_search_without_terminator_refuted :
   tex_write [] [0%N] [[65; 66]; [65]]%N = ([65; 66; 0]%N, [0; 0]%nat) /\
   tex_read 128 [65; 66; 0]%N 0 = Some [65; 66]%N.
 Proof. exact texdata_search_without_terminator_refuted. Qed.
+
+(** * Entity lump (text layer): with a template that escapes keys, values and the text fields of outputs, every list of
+    well-formed entities (keyvalues and outputs, either separator) is read back exactly by the token loop of the reader.
+    [float_ok] / [int_ok] stand for Python's float() / int() accepting the delay / times text. *)
+Theorem c11_ent_lump_roundtrip : forall float_ok int_ok c sep ents, entcfg_ok c = true -> (sep = ESC \/ sep = COMMA) ->
+  forallb (forallb (item_wf float_ok int_ok sep)) ents = true ->
+  ent_read float_ok int_ok (write_ents c sep ents) = Some ents.
+Proof. exact ent_lump_roundtrip. Qed.
+Theorem c11_ent_raw_key_refuted :
+  ent_read ok_all ok_all (write_ents (Raw, EscML, EscS, [EscS; EscS; EscML; Raw; Raw]) ESC [[IKV [97; 34; 98] [120]]])%N = None /\
+  ent_read ok_all ok_all (write_ents (Raw, EscML, EscS, [EscS; EscS; EscML; Raw; Raw]) ESC [[IKV [97; 92; 110; 98] [120]]])%N
+    = Some [[IKV [97; 10; 98] [120]]]%N.
+Proof. exact ent_raw_key_refuted. Qed.
 
 (** * Index builders *)
 Theorem c11_find_or_insert_sound : forall l ks s' is, fi_run (fi_init l) ks = (s', is) ->
